@@ -137,140 +137,155 @@ def r1(ctx):
     ctx.floor("C08.R1", 12)
 
 
+def eval_get_range(f, order, has_successor=1):
+    """StoreInstance::get_range evaluated (K6'): returns (rendered result, [bounds of each table scan in order of creation])"""
+    from . import feval as E
+    inl = [x.path for x in f.bodies.values() if x.path.startswith("store::fs::bounds::") and not x.path.endswith("increment_by_one")]
+    scans = []
+
+    def oracle(kind, name, payload, site):
+        if kind == "cmp":
+            a, b = name, payload
+            if a == "x(range)" and b == "y(range)":
+                return order
+            if a == "y(range)" and b == "x(range)":
+                return -order
+            return None
+        if kind != "call":
+            return None
+        t, args, it = payload
+        names = [it.tokname(a) for a in args]
+        if name == "tables":
+            return E.Ok(E.Tok("tables"))
+        if name == "range" and "Table" in (t["f"].get("full") or "") + (t["f"].get("path") or ""):
+            scans.append((names[0], names[1]))
+            return E.Ok(E.Tok("scan%d" % len(scans)))
+        if name == "to_byte_tuple":
+            return E.Tok("tuple(%s)" % names[0])
+        if name == "increment_by_one":
+            if args[0][0] == "ref":
+                it.write_loc(args[0][1], E.Tok("succ(%s)" % names[0]))
+            return E.Int(has_successor)
+        if name in ("to_bytes", "as_bytes"):
+            return E.Tok("bytes(%s)" % names[0])
+        if name == "new" and callee_matches(t, r"Bytes::new"):
+            return E.Tok("empty")
+        if name in ("into_iter", "flatten"):
+            return args[0]
+        if name == "chain":
+            return E.Tok("chain(%s,%s)" % (names[0], names[1]))
+        return None
+    try:
+        ret, hp, ev = E.run(f, SI + "get_range", [E.href("self"), E.Tok("range")], {"self": E.Tok("self")}, oracle, inline=inl)
+        return E.describe(ret, f), scans
+    except E.Unsupported as e:
+        return "UNSUPPORTED-FORM: %s" % e, scans
+
+
 def r2(ctx):
+    """get_range as a function of cmp(range.x, range.y): which table scans are opened, with which bounds, chained in which order"""
+    import re as _re
     f = ctx.facts
     b = f.body(SI + "get_range")
     ctx.touch(b)
-    # every Bound aggregate: x -> Included, y -> Excluded
-    n = 0
-    for bi, si, s in b.statements():
-        if s["k"] == "assign" and s["r"][0] == "agg" and s["r"][1][0] == "adt" and s["r"][1][1].endswith("ops::Bound") and s["r"][2]:
-            n += 1
-            ends = set()
-            for o in trace(b, s["r"][2][0], through_calls=False):
-                if o.kind == "call" and o.data["f"].get("name") == "to_byte_tuple":
-                    for o2 in trace(b, o.data["a"][0], through_calls=False):
-                        if o2.kind == "call" and o2.data["f"].get("name") in ("x", "y"):
-                            ends.add(o2.data["f"].get("name"))
-            kind = s["r"][1][2]
-            want = {"x": "Included", "y": "Excluded"}
-            ok = len(ends) == 1 and want[list(ends)[0]] == kind
-            ctx.check(ok, "C08.R2", b.path, "bound-kind.%s(range.%s)#%d" % (kind, "|".join(sorted(ends)), n), "a range [x, y) includes x and excludes y", s["sp"])
-    if n < 4:
-        raise mir.AnchorMissing("get_range: expected 4 bound constructions, found %d" % n)
-    arms = {}
-    for p in P.explore(b):
-        if not (p.ret[0] == "variant" and p.ret[1] == "Ok"):
-            continue
-        v = [vv for k, vv in p.decisions if k[0] == "discr" and "#Ordering" in k[1]]
-        if not v:
-            continue
-        arm = {255: "Less", 0: "Equal", 1: "Greater", -1: "Less"}.get(v[0], str(v[0]))
-        arms[arm] = p
-    ctx.check(set(arms) == {"Less", "Equal", "Greater"}, "C08.R2", b.path, "three-arms", "%s" % sorted(arms), b.sp)
-    if "Less" in arms:
-        p = arms["Less"]
-        c = [e[2] for e in p.events if e[0] == "call" and e[1] == "new" and callee_matches(e[2], r"RecordsBounds::new$")]
-        ok = len(c) == 1
-        if ok:
-            s0 = {o.data["f"].get("name") for o in leaves(b, c[0]["a"][0], expand_calls=True) if False}
-            def end_of(op):
-                out = set()
-                for o in trace(b, op, through_calls=False):
-                    if o.kind == "agg":
-                        for x in trace(b, o.data[1][0], through_calls=False):
-                            if x.kind == "call" and x.data["f"].get("name") == "to_byte_tuple":
-                                for y in trace(b, x.data["a"][0], through_calls=False):
-                                    if y.kind == "call":
-                                        out.add(y.data["f"].get("name"))
-                return out
-            ok = end_of(c[0]["a"][0]) == {"x"} and end_of(c[0]["a"][1]) == {"y"}
-        ctx.check(ok, "C08.R2", b.path, "Less=[x,y)", "regular range: RecordsBounds::new(start from x, end from y)", b.sp)
-    if "Equal" in arms:
-        p = arms["Equal"]
-        calls = P.calls(p)
-        ok = "namespace" in calls and "to_byte_tuple" not in calls and "chain_none" in calls
-        ctx.check(ok, "C08.R2", b.path, "Equal=whole-namespace", "x == y scans the namespace bounds (calls %s)" % [c for c in calls if c in ("namespace", "new", "from_start", "to_end", "chain", "chain_none")], b.sp)
-    if "Greater" in arms:
-        p = arms["Greater"]
-        calls = P.calls(p)
-        ok = "from_start" in calls and "to_end" in calls and "chain" in calls and calls.index("from_start") < calls.index("to_end")
-        ch = [e[2] for e in p.events if e[0] == "call" and e[1] == "chain"]
-        if ok and len(ch) == 1:
-            def bounds_ctor(op):
-                out = set()
-                seen = 0
-                for o in leaves(b, op, expand_calls=False):
-                    pass
-                stack = list(trace(b, op, through_calls=False))
-                names = set()
-                depth = 0
-                while stack and depth < 60:
-                    depth += 1
-                    o = stack.pop()
-                    if o.kind == "call":
-                        nm = o.data["f"].get("name")
-                        if nm in ("from_start", "to_end", "new", "namespace"):
-                            names.add(nm)
-                        else:
-                            for a in o.data["a"]:
-                                if a[0] != "const":
-                                    stack.extend(trace(b, a, through_calls=False))
-                    elif o.kind == "agg":
-                        for a in o.data[1]:
-                            if a[0] != "const":
-                                stack.extend(trace(b, a, through_calls=False))
-                return names
-            first, second = bounds_ctor(ch[0]["a"][0]), bounds_ctor(ch[0]["a"][1])
-            ok = first == {"from_start"} and second == {"to_end"}
-            ctx.check(ok, "C08.R2", b.path, "Greater=[start,y)++[x,end)", "wrap-around: first %s chained before %s" % (sorted(first), sorted(second)), ch[0]["sp"])
-        else:
-            ctx.bad("C08.R2", b.path, "Greater=[start,y)++[x,end)", "calls %s" % [c for c in calls if c in ("from_start", "to_end", "chain")], b.sp)
-    # from_start / to_end use the namespace start / end
-    for path, which in (("store::fs::bounds::RecordsBounds::from_start", "namespace_start"), ("store::fs::bounds::RecordsBounds::to_end", "namespace_end")):
-        bb = f.body(path)
-        ctx.touch(bb)
-        ok = any(t["f"].get("name") == which for _, t in bb.calls())
-        nw = [t for _, t in bb.calls() if t["f"].get("name") == "new"]
-        if ok and len(nw) == 1:
-            pos = 0 if which == "namespace_start" else 1
-            ok = any(o.kind == "call" and o.data["f"].get("name") == which for o in trace(bb, nw[0]["a"][pos], through_calls=False))
-            other = {origin_summary(o) for o in trace(bb, nw[0]["a"][1 - pos])}
-            ok = ok and other == {"arg:%s" % ("end" if pos == 0 else "start")}
-        ctx.check(ok, "C08.R2", path, "uses-%s" % which, "%s = new(%s)" % (path.split("::")[-1], "namespace_start, end" if which == "namespace_start" else "start, namespace_end"), bb.sp)
-    ctx.floor("C08.R2", 9)
+    for bb in ("store::fs::bounds::RecordsBounds::from_start", "store::fs::bounds::RecordsBounds::to_end", "store::fs::bounds::RecordsBounds::namespace", "store::fs::bounds::RecordsBounds::new"):
+        ctx.touch(f.body(bb))
+    NS0 = "(bytes(self.namespace),[0; _],empty)"
+    X, Y = "tuple(x(range))", "tuple(y(range))"
+    for succ in (1, 0):
+        NSE = "Excluded((succ(bytes(self.namespace)),[0; _],empty))" if succ else "Unbounded"
+        spec = {
+            -1: [("RecordsBounds(Included(%s),Excluded(%s))" % (X, Y))],
+            0: [("RecordsBounds(Included(%s),%s)" % (NS0, NSE))],
+            1: [("RecordsBounds(Included(%s),Excluded(%s))" % (NS0, Y)), ("RecordsBounds(Included(%s),%s)" % (X, NSE))],
+        }
+        for order, nm in ((-1, "Less"), (0, "Equal"), (1, "Greater")):
+            got, scans = eval_get_range(f, order, succ)
+            want = spec[order]
+            bounds = [s[1] for s in scans]
+            ok = got.startswith("Ok(") and sorted(bounds) == sorted(want) and all(s[0] == "tables.records" for s in scans)
+            if ok:
+                # order of the scans in the returned iterator: exactly the scans opened, the [start,y) part before the [x,end) part
+                ids = _re.findall(r"scan(\d+)", got)
+                seq = [bounds[int(i) - 1] for i in ids]
+                ok = seq == want
+            label = {"Less": "Less=[x,y)", "Equal": "Equal=whole-namespace", "Greater": "Greater=[start,y)++[x,end)"}[nm]
+            ctx.check(ok, "C08.R2", b.path, "%s%s" % (label, "" if succ else "[namespace-without-successor]"),
+                      "cmp(x,y)=%s: returns %s over scans %s; spec: scans with bounds %s in this order, on the records table" % (nm, got, scans, want), b.sp)
+    ctx.floor("C08.R2", 6)
 
 
 def r3(ctx):
+    from . import feval as E
     f = ctx.facts
     b = f.body(SI + "get_fingerprint")
     ctx.touch(b)
-    gr = [(bi, t) for bi, t in b.calls() if t["f"].get("name") == "get_range"]
-    em = [(bi, t) for bi, t in b.calls() if callee_matches(t, r"ranger::Fingerprint::empty$")]
-    xo = [(bi, t) for bi, t in b.calls() if t["f"].get("name") == "bitxor_assign"]
-    af = [(bi, t) for bi, t in b.calls() if t["f"].get("name") == "as_fingerprint"]
-    ok = len(gr) == 1 and len(em) == 1 and len(xo) == 1 and len(af) == 1
-    if ok:
-        rng = {origin_summary(o) for o in trace(b, gr[0][1]["a"][1])}
-        acc = trace(b, xo[0][1]["a"][0])
-        rhs = trace(b, xo[0][1]["a"][1], through_calls=False)
-        ok = rng == {"arg:range"} and any(o.kind == "call" and o.data is em[0][1] for o in trace(b, xo[0][1]["a"][0], through_calls=False)) \
-            and any(o.kind == "call" and o.data is af[0][1] for o in rhs)
-        # element fingerprinted is the iterated element
-        el = trace(b, af[0][1]["a"][0], through_calls=False)
-    ctx.check(ok, "C08.R3", b.path, "fp=xor-fold-over-get_range(range)", "fp starts at Fingerprint::empty(), fp ^= el.as_fingerprint() for el in get_range(range.clone())", b.sp)
-    ret = [p for p in P.explore(b) if p.ret[0] == "variant" and p.ret[1] == "Ok"]
-    ctx.check(bool(ret) and all(P.short(p.ret) == "Ok(call:empty)" for p in ret), "C08.R3", b.path, "returns-the-accumulator", "%s" % sorted({P.short(p.ret) for p in ret}), b.sp)
-    # every element is folded: no path from Some(el) back to next() without the xor
-    nx = [bi for bi, t in b.calls() if t["f"].get("name") == "next"]
-    if len(nx) == 1 and xo:
-        some = call_outcomes(b, nx[0]).get("Some")
-        byp = False
-        if some:
-            region = b.reach_from_edges([some[1]], avoid={xo[0][0]})
-            rets_ok = [x for x in region if b.blocks[x]["t"]["k"] == "return"]
-            byp = nx[0] in region
-        ctx.check(bool(some) and not byp, "C08.R3", b.path, "every-element-folded", "no element of the range is skipped by the fold", b.sp)
+    # get_fingerprint evaluated (K6') on element sequences of the range scan: the xor-fold of every element's fingerprint from empty()
+    for items in ((), ("el0",), ("el0", "el1", "el2"), ("el0", "err", "el2")):
+        st = {"i": 0, "ranges": []}
+
+        def xor(acc, x):
+            return E.Tok("xor(%s,%s)" % (acc, x))
+
+        def oracle(kind, name, payload, site, items=items, st=st):
+            if kind != "call":
+                return None
+            t, args, it = payload
+            names = [it.tokname(a) for a in args]
+            if name == "get_range":
+                st["ranges"].append(names[1:])
+                return E.Ok(E.Tok("elements"))
+            if name == "into_iter":
+                return args[0]
+            if name == "next" and names and names[0] == "elements":
+                i = st["i"]
+                st["i"] += 1
+                if i >= len(items):
+                    return E.NONE
+                return E.Some(E.Err(E.Tok("storage-error"))) if items[i] == "err" else E.Some(E.Ok(E.Tok(items[i])))
+            if name in ("try_fold", "fold") and names and names[0] == "elements":
+                acc = args[1]
+                for x in items[st["i"]:]:
+                    st["i"] += 1
+                    item = E.Err(E.Tok("storage-error")) if x == "err" else E.Ok(E.Tok(x))
+                    r = it.apply(args[2], [acc, item])
+                    if name == "fold":
+                        acc = r
+                        continue
+                    rd = it.deref_val(r)
+                    if rd is not None and rd[0] == "adt" and rd[1] in (E.RESULT,) and rd[2] == 0:
+                        acc = rd[3].get(0, E.TOP)
+                    elif rd is not None and rd[0] == "adt" and rd[1] == E.CFLOW and rd[2] == 0:
+                        acc = rd[3].get(0, E.TOP)
+                    else:
+                        return r
+                return E.Ok(acc) if name == "try_fold" else acc
+            if callee_matches(t, r"ranger::Fingerprint::empty$"):
+                return E.Tok("EMPTY")
+            if name == "as_fingerprint":
+                return E.Tok("fp(%s)" % names[0])
+            if name == "bitxor_assign":
+                if args[0][0] == "ref":
+                    it.write_loc(args[0][1], xor(names[0], names[1]))
+                return E.UNIT
+            if name == "bitxor":
+                return xor(names[0], names[1])
+            return None
+        try:
+            ret, hp, ev = E.run(f, b.path, [E.href("self"), E.href("range")], {"self": E.Tok("self"), "range": E.Tok("range")}, oracle)
+            got = E.describe(ret, f)
+        except E.Unsupported as e:
+            got = "UNSUPPORTED-FORM: %s" % e
+        if "err" in items:
+            want = "Err(storage-error)"
+        else:
+            acc = "EMPTY"
+            for x in items:
+                acc = "xor(%s,fp(%s))" % (acc, x)
+            want = "Ok(%s)" % acc
+        okr = st["ranges"] == [["range"]]
+        ctx.check((got == want or (want.startswith("Err") and got.startswith("Err"))) and okr, "C08.R3", b.path, "fp=xor-fold-over-get_range(range)[%s]" % ("+".join(items) or "empty"),
+                  "returns %s over get_range%s; spec %s (every element of the same range folded once, from Fingerprint::empty(); a storage error is reported)" % (got, st["ranges"], want), b.sp)
     fx = f.body("<ranger::Fingerprint as std::ops::BitXorAssign>::bitxor_assign")
     ctx.touch(fx)
     xs = [s for _, _, s in fx.statements() if s["k"] == "assign" and s["r"][0] == "bin" and s["r"][1] == "BitXor"]
